@@ -106,6 +106,7 @@ fn run_once(case: &Case, sc: &Scratch, tag: &str, faults: &BTreeMap<(String, u64
             }
             Op::Flush => sess.flush(),
             Op::Advance(ms) => hh.advance(*ms * MS),
+            Op::FailWrite(_) => {} // not generated for this property (faults come from its own enumeration)
         }
     }
     // tail without faults: logging and rotation resume without a restart
